@@ -102,7 +102,8 @@ def main(tier):
     runs.append(("ordRs", cfg(2, 5, 5, 3, 1, True, False, ["EmitBehaviour"]), 2, ["-simulate", "num=%d" % (nsim // 4), "-depth", "24", "-seed", str(c.seed)], None))
     runs.append(("ordRg", cfg(2, 5, 5, 3, 1, True, False, ["EmitBehaviour"]), 2, ["-simulate", "num=%d" % (nsim // 16), "-depth", "24", "-seed", str(c.seed + 1)], 1))
     if not quick:
-        runs.append(("ordR3", cfg(3, 6, 6, 3, 1, True, False, ["EmitBehaviour"]), 3, ["-simulate", "num=%d" % (nsim // 8), "-depth", "28", "-seed", str(c.seed + 2)], None))
+        # (3 orders, 6 host moves: larger constants make TLC enumerate a set of more than 10^6 scripts in Init)
+        runs.append(("ordR3", cfg(3, 5, 5, 2, 1, True, False, ["EmitBehaviour"]), 3, ["-simulate", "num=%d" % (nsim // 8), "-depth", "28", "-seed", str(c.seed + 2)], None))
     # focus scripts: ONE program each, ALL host histories (exhaustive): suspensions after a combinator / a cancel,
     # so that late settlements of race losers, duplicate cancellations etc. become observable in a later result
     FOCUS = [
